@@ -17,6 +17,13 @@
 #include "QXmppVCardIq.h"
 #include "QXmppDiscoveryIq.h"
 #include "QXmppGeolocItem.h"
+#include "QXmppIq.h"
+#include "QXmppPresence.h"
+#include "QXmppMessage.h"
+#include "QXmppBitsOfBinaryDataList.h"
+#include "QXmppMessageReaction.h"
+#include "QXmppFileShare.h"
+#include "QXmppFallback.h"
 #include "QXmppPubSubEvent.h"
 #include "QXmppElement.h"
 #include "QXmppRosterIq.h"
@@ -194,6 +201,31 @@ static std::string canonOfTree(const Tree &t)
     flush();
     return o + "))";
 }
+// namespace-RESOLVED canonical form: every element carries the namespace it is in, xmlns attributes are dropped -- two documents that
+// differ only in redundant namespace declarations are the same document
+static std::string canonResolved(const Tree &t, const QString &inherited)
+{
+    if (t.isText) return "(T " + hexOf(t.name) + ")";
+    QString ns = inherited;
+    for (auto &a : t.attrs) if (a.first == "xmlns") ns = a.second;
+    std::vector<std::pair<std::string, std::string>> as;
+    for (auto &a : t.attrs) if (a.first != "xmlns") as.emplace_back(hexOf(a.first), hexOf(a.second));
+    std::sort(as.begin(), as.end());
+    std::string o = "(E " + hexOf(t.name) + "@" + hexOf(ns) + " (";
+    for (size_t i = 0; i < as.size(); i++) { if (i) o += " "; o += "(" + as[i].first + " " + as[i].second + ")"; }
+    o += ") (";
+    bool first = true; QString pending;
+    auto flush = [&]() { if (!pending.isEmpty()) { if (!first) o += " "; o += "(T " + hexOf(pending) + ")"; first = false; } pending.clear(); };
+    for (auto &k : t.kids) { if (k.isText) pending += k.name; else { flush(); if (!first) o += " "; o += canonResolved(k, ns); first = false; } }
+    flush();
+    return o + "))";
+}
+static std::string canonWriterResolved(const QByteArray &xml, const QString &inherited)
+{
+    QString s = QString::fromUtf8(xml); int i = 0; Tree t;
+    if (!readWriterElement(s, i, t) || i != s.size()) return "none";
+    return canonResolved(t, inherited);
+}
 // canonical tree of real toXml output, nothing lost ("none" when it is not in the writer's output language)
 // classes that keep a QSet (hash order on output): runs of sibling elements with this tag are sorted by their text (UTF-8 byte
 // order = code point order, the order of the model) before comparing -- "up to sibling order"
@@ -230,6 +262,8 @@ static std::string showVal(const Val &v)
 {
     switch (v.kind) {
     case 's': return "s" + hexOf(v.s);
+    case 't': return "t" + hexOf(v.s);   // an uninterpreted child tree, as canonical text
+    case 'i': return (v.b ? "i-" : "i") + std::to_string(v.n);   // signed integer: b = negative
     case 'n': return "n" + std::to_string(v.n);
     case 'b': return v.b ? "b1" : "b0";
     case 'o': return v.has ? "o" + std::to_string(v.n) : "o-";
@@ -260,6 +294,8 @@ static bool parseVals(const std::vector<std::string> &t, size_t &i, std::vector<
         if (k == "A") { v.kind = 'A'; i++; }
         else if (k == "R(" || k == "L(") { v.kind = k[0]; i++; if (!parseVals(t, i, v.items)) return false; if (i >= t.size() || t[i] != ")") return false; i++; }
         else if (k[0] == 's') { v.kind = 's'; v.s = unhexQ(k.substr(1)); i++; }
+        else if (k[0] == 't') { v.kind = 't'; v.s = unhexQ(k.substr(1)); i++; }
+        else if (k[0] == 'i') { v.kind = 'i'; v.b = k.size() > 1 && k[1] == '-'; v.n = strtoull(k.c_str() + (v.b ? 2 : 1), nullptr, 10); i++; }
         else if (k[0] == 'n') { v.kind = 'n'; v.n = strtoull(k.c_str() + 1, nullptr, 10); i++; }
         else if (k == "b0" || k == "b1") { v.kind = 'b'; v.b = k == "b1"; i++; }
         else if (k == "o-") { v.kind = 'o'; v.has = false; i++; }
@@ -288,6 +324,8 @@ static Val vN(quint64 n) { Val v; v.kind = 'n'; v.n = n; return v; }
 static Val vB(bool b) { Val v; v.kind = 'b'; v.b = b; return v; }
 static Val vO(bool has, quint64 n = 0) { Val v; v.kind = 'o'; v.has = has; v.n = n; return v; }
 static Val vA() { return Val(); }
+static Val vI(qint64 x) { Val v; v.kind = 'i'; v.b = x < 0; v.n = quint64(x < 0 ? -x : x); return v; }
+static qint64 intOfVal(const Val &v) { return v.b ? -qint64(v.n) : qint64(v.n); }
 // a QDateTime as the class can print it: nothing for an invalid one or one datetimeToString() renders as ""
 static Val vD(const QDateTime &t)
 {
@@ -354,6 +392,8 @@ template<class T> static QByteArray serPayload(const Open<T> &o)
 // set by a class's run() when the parsed object is in a state the schema does not describe (the document is then
 // left out of the correspondence; the model-independent oracles still run on it)
 static bool g_outsideModel = false;
+// set by a class's run() when the object is in a state with a KNOWN cause of a fixpoint failure: appended to the oracle key
+static std::string g_failHint;
 
 struct ClassEntry {
     std::string name;
@@ -361,6 +401,7 @@ struct ClassEntry {
     bool iqPayload = false;
     bool streamChild = false;
     QString sortTag;           // see g_sortTag
+    bool hasRest = false;      // keeps unknown children as QXmppElement (schema field `rest`): see restHazard()
     QByteArray wrapNs;         // parsed as the child of an element in this namespace (the class reads its own namespaceURI())
     QString skipRootTag;       // documents whose root element has this name are outside the class's model  // parsed as a child of <stream:stream> (prefix `stream` bound there)
     std::vector<std::string> fieldNames;
@@ -406,6 +447,61 @@ static ClassEntry payload(const std::string &name, std::vector<std::string> fiel
     e.build = [fv, tv](const Vals &v, Vals &rep) { Open<T> o; fv(o, v); rep = tv(o); return serPayload(o); };
     return e;
 }
+
+// an uninterpreted child as the value the model uses: the canonical text of what the element serializes to
+static Val vT(const QXmppElement &e) { Val v; v.kind = 't'; v.s = QString::fromStdString(canonWriter(ser(e))); return v; }
+// ... and back: the tree is parsed where `ns` is the namespace in scope, as the element would be found inside its stanza
+static QXmppElement elementOf(const Val &v, const QByteArray &ns)
+{
+    Tree t; if (!treeOfCanon(v.s.toStdString(), t)) return QXmppElement();
+    QDomDocument doc;
+    if (!doc.setContent(QByteArray("<w xmlns=\"") + ns + "\">" + xmlOfTree(t) + "</w>", true)) return QXmppElement();
+    return QXmppElement(doc.documentElement().firstChildElement());
+}
+// QXmppStanza::Error as the schema field list `stanzaErrorFields` reports it
+static Val stanzaErrorVal(const QXmppStanza::Error &o)
+{
+    using E = QXmppStanza::Error;
+    const bool uriCond = o.condition() == E::Gone || o.condition() == E::Redirect;
+    if (o.fileTooLarge() || o.retryDate().isValid()) g_outsideModel = true;
+    if (o.type() == E::NoType && o.condition() == E::NoCondition)
+        return vR({ vS(QString()), vO(false), vO(false), vR({ vO(false), vS(QString()) }), vR({ vS(QString()) }) });
+    return vR({ vS(o.by()), int(o.type()) < 0 ? vO(false) : vO(true, quint64(int(o.type()))), o.code() > 0 ? vO(true, quint64(o.code())) : vO(false),
+                vR({ int(o.condition()) < 0 ? vO(false) : vO(true, quint64(int(o.condition()))), vS(uriCond ? o.redirectionUri() : QString()) }),
+                vR({ vS(o.text()) }) });
+}
+static QXmppStanza::Error stanzaErrorOf(const Val &w)
+{
+    using E = QXmppStanza::Error;
+    E o; auto &f = w.items;
+    o.setBy(f.at(0).s); if (f.at(1).has) o.setType(E::Type(int(f.at(1).n))); if (f.at(2).has) o.setCode(int(f.at(2).n));
+    auto &c = f.at(3).items; if (c.at(0).has) o.setCondition(E::Condition(int(c.at(0).n))); o.setRedirectionUri(c.at(1).s);
+    o.setText(f.at(4).items.at(0).s);
+    return o;
+}
+// XEP-0033 addresses of a stanza (schema field `addressesField`)
+static Val addressesVal(const QList<QXmppExtendedAddress> &l)
+{
+    Vals items; for (auto &a : l) items.push_back(vR({ vB(a.isDelivered()), vS(a.description()), vS(a.jid()), vS(a.type()) }));
+    return vR({ vL(items) });
+}
+static QList<QXmppExtendedAddress> addressesOf(const Val &w)
+{
+    QList<QXmppExtendedAddress> l;
+    for (auto &it : w.items.at(0).items) { QXmppExtendedAddress a; a.setDelivered(it.items.at(0).b); a.setDescription(it.items.at(1).s); a.setJid(it.items.at(2).s); a.setType(it.items.at(3).s); l << a; }
+    return l;
+}
+// stanza documents on which QXmppStanza::parse leaves the schema: a plain `lang` attribute beside / instead of xml:lang (QDom finds both under
+// the name "lang"), an <addresses/> child in another namespace than XEP-0033's (taken by tag alone, but kept as unknown extension too)
+static bool stanzaHazard(const QDomElement &el)
+{
+    auto as = el.attributes();
+    for (int i = 0; i < as.count(); i++) if (as.item(i).nodeName() == u"lang") return true;
+    for (auto c = el.firstChildElement(); !c.isNull(); c = c.nextSiblingElement())
+        if (c.tagName() == u"addresses" && c.namespaceURI() != u"http://jabber.org/protocol/address") return true;
+    return false;
+}
+static Vals restVals(const QXmppElementList &l) { Vals o; for (auto &e : l) o.push_back(vT(e)); return o; }
 
 static std::vector<ClassEntry> classTable()
 {
@@ -994,6 +1090,219 @@ static std::vector<ClassEntry> classTable()
             },
             [=](const Vals &v) { S o; o.setJid(v.at(0).s); o.setState(stateOf(v.at(1))); return o; });
     }
+    {
+        // the IQ envelope: typed attributes, error, and everything else as uninterpreted extensions
+        using E = QXmppStanza::Error;
+        auto errVals = [](const E &o) {
+            const bool uriCond = o.condition() == E::Gone || o.condition() == E::Redirect;
+            if (o.fileTooLarge() || o.retryDate().isValid()) g_outsideModel = true;
+            if (o.type() == E::NoType && o.condition() == E::NoCondition)
+                return vR({ vS(QString()), vO(false), vO(false), vR({ vO(false), vS(QString()) }), vR({ vS(QString()) }) });
+            return vR({ vS(o.by()), int(o.type()) < 0 ? vO(false) : vO(true, quint64(int(o.type()))), o.code() > 0 ? vO(true, quint64(o.code())) : vO(false),
+                        vR({ int(o.condition()) < 0 ? vO(false) : vO(true, quint64(int(o.condition()))), vS(uriCond ? o.redirectionUri() : QString()) }),
+                        vR({ vS(o.text()) }) });
+        };
+        auto errOf = [](const Val &w) {
+            E o; auto &f = w.items;
+            o.setBy(f.at(0).s); if (f.at(1).has) o.setType(E::Type(int(f.at(1).n))); if (f.at(2).has) o.setCode(int(f.at(2).n));
+            auto &c = f.at(3).items; if (c.at(0).has) o.setCondition(E::Condition(int(c.at(0).n))); o.setRedirectionUri(c.at(1).s);
+            o.setText(f.at(4).items.at(0).s);
+            return o;
+        };
+        ClassEntry e; e.name = "Iq"; e.cxx = "QXmppIq"; e.fieldNames = { "id", "to", "from", "type", "extensions", "error" };
+        e.wrapNs = "jabber:client"; e.hasRest = true;
+        auto tv = [=](const QXmppIq &o) { return Vals { vS(o.id()), vS(o.to()), vS(o.from()), vN(quint64(int(o.type()))), vL(restVals(o.extensions())), errVals(o.error()) }; };
+        e.run = [=](const QDomElement &el, QByteArray &out, Vals &vals) {
+            QXmppIq o; o.parse(el); out = ser(o); vals = tv(o);
+            if (el.namespaceURI() != u"jabber:client") g_outsideModel = true;   // a stanza lives in the stream's namespace
+            return true;
+        };
+        e.build = [=](const Vals &v, Vals &rep) {
+            QXmppIq o; o.setId(v.at(0).s); o.setTo(v.at(1).s); o.setFrom(v.at(2).s); o.setType(QXmppIq::Type(int(v.at(3).n)));
+            QXmppElementList l; for (auto &t : v.at(4).items) l << elementOf(t, "jabber:client"); o.setExtensions(l);
+            o.setError(errOf(v.at(5)));
+            rep = tv(o); return ser(o);
+        };
+        t.push_back(e);
+    }
+    {
+        // the presence envelope
+        using P = QXmppPresence;
+        ClassEntry e; e.name = "Presence"; e.cxx = "QXmppPresence"; e.wrapNs = "jabber:client"; e.hasRest = true;
+        e.fieldNames = { "lang", "id", "to", "from", "type", "show", "status", "priority", "error", "muc", "mucUser", "caps", "moved", "idle", "mix", "addresses", "extensions" };
+        auto mucItemVals = [](const QXmppMucItem &o) {
+            return Vals { int(o.affiliation()) == 0 ? vO(false) : vO(true, quint64(int(o.affiliation()) - 1)), vS(o.jid()), vS(o.nick()),
+                          int(o.role()) == 0 ? vO(false) : vO(true, quint64(int(o.role()) - 1)), vR({ vS(o.actor()) }), vR({ vS(o.reason()) }) };
+        };
+        auto tv = [=](const P &o) {
+            if (o.vCardUpdateType() != P::VCardUpdateNone || o.isPreparingMujiSession() || !o.mujiContents().isEmpty()) g_outsideModel = true;   // not modelled
+            int t = int(o.type());   // enum: Error, Available, Unavailable, ...; the schema lists the types without Available
+            Val type = t == 1 ? vO(false) : vO(true, quint64(t == 0 ? 0 : t - 1));
+            int sh = int(o.availableStatusType());
+            Vals codes; for (int c : o.mucStatusCodes()) codes.push_back(vR({ vI(c) }));
+            const bool caps = !o.capabilityHash().isEmpty() && !o.capabilityNode().isEmpty() && !o.capabilityVer().isEmpty();
+            if (!caps && (!o.capabilityHash().isEmpty() || !o.capabilityNode().isEmpty() || !o.capabilityVer().isEmpty())) stat("presence_partial_caps_reported_unset");
+            QByteArray ver = o.capabilityVer();
+            return Vals { vS(o.lang()), vS(o.id()), vS(o.to()), vS(o.from()), type,
+                          vR({ sh == 0 ? vO(false) : vO(true, quint64(sh - 1)) }), vR({ vS(o.statusText()) }), vR({ vI(o.priority()) }),
+                          stanzaErrorVal(o.error()),
+                          o.isMucSupported() ? vR({ vR({ vS(o.mucPassword()) }) }) : vA(),
+                          vR({ vR(mucItemVals(o.mucItem())), vL(codes) }),
+                          caps ? vR({ vS(o.capabilityHash()), vS(o.capabilityNode()), vS(QString::fromLatin1(ver.constData(), ver.size())) }) : vR({ vS(QString()), vS(QString()), vS(QString()) }),
+                          vR({ vR({ vS(o.oldJid()) }) }), vR({ vD(o.lastUserInteraction()) }),
+                          vR({ vR({ vS(o.mixUserJid()) }), vR({ vS(o.mixUserNick()) }) }),
+                          addressesVal(o.extendedAddresses()), vL(restVals(o.extensions())) };
+        };
+        e.run = [=](const QDomElement &el, QByteArray &out, Vals &vals) {
+            P o; o.parse(el); out = ser(o); vals = tv(o);
+            if (el.namespaceURI() != u"jabber:client" || stanzaHazard(el)) g_outsideModel = true;
+            int idle = 0, invalidAddr = 0;
+            for (auto c = el.firstChildElement(); !c.isNull(); c = c.nextSiblingElement()) {
+                if (c.tagName() == u"idle" && c.namespaceURI() == u"urn:xmpp:idle:1") idle++;   // a later <idle/> without `since` keeps the earlier date
+            }
+            auto addrs = firstChildElement(el, u"addresses");
+            for (auto a = addrs.firstChildElement("address"); !a.isNull(); a = a.nextSiblingElement("address")) invalidAddr++;
+            if (idle > 1) g_outsideModel = true;
+            // a valid date-time that cannot be printed (UTC year > 9999): <idle/> is written without `since`
+            if (o.lastUserInteraction().isValid() && QXmppUtils::datetimeToString(o.lastUserInteraction()).isEmpty()) { g_outsideModel = true; g_failHint = ":idle-unprintable-date"; }
+            return true;
+        };
+        e.build = [=](const Vals &v, Vals &rep) {
+            P o;
+            o.setLang(v.at(0).s); o.setId(v.at(1).s); o.setTo(v.at(2).s); o.setFrom(v.at(3).s);
+            o.setType(v.at(4).has ? P::Type(v.at(4).n == 0 ? 0 : int(v.at(4).n) + 1) : P::Available);
+            { const Val &s = v.at(5).items.at(0); o.setAvailableStatusType(P::AvailableStatusType(s.has ? int(s.n) + 1 : 0)); }
+            o.setStatusText(v.at(6).items.at(0).s); o.setPriority(int(intOfVal(v.at(7).items.at(0))));
+            o.setError(stanzaErrorOf(v.at(8)));
+            if (v.at(9).kind == 'R') { o.setMucSupported(true); o.setMucPassword(v.at(9).items.at(0).items.at(0).s); }
+            {
+                auto &mu = v.at(10).items; auto &it = mu.at(0).items; QXmppMucItem mi;
+                mi.setAffiliation(QXmppMucItem::Affiliation(it.at(0).has ? int(it.at(0).n) + 1 : 0)); mi.setJid(it.at(1).s); mi.setNick(it.at(2).s);
+                mi.setRole(QXmppMucItem::Role(it.at(3).has ? int(it.at(3).n) + 1 : 0)); mi.setActor(it.at(4).items.at(0).s); mi.setReason(it.at(5).items.at(0).s);
+                o.setMucItem(mi);
+                QList<int> codes; for (auto &c : mu.at(1).items) codes << int(intOfVal(c.items.at(0))); o.setMucStatusCodes(codes);
+            }
+            { auto &c = v.at(11).items; o.setCapabilityHash(c.at(0).s); o.setCapabilityNode(c.at(1).s); o.setCapabilityVer(c.at(2).s.toLatin1()); }
+            o.setOldJid(v.at(12).items.at(0).items.at(0).s); o.setLastUserInteraction(dateOf(v.at(13).items.at(0)));
+            o.setMixUserJid(v.at(14).items.at(0).items.at(0).s); o.setMixUserNick(v.at(14).items.at(1).items.at(0).s);
+            o.setExtendedAddresses(addressesOf(v.at(15)));
+            QXmppElementList l; for (auto &t : v.at(16).items) l << elementOf(t, "jabber:client"); o.setExtensions(l);
+            rep = tv(o); return ser(o);
+        };
+        t.push_back(e);
+    }
+    {
+        // the message envelope, core (see Classes.lean: Message)
+        using M = QXmppMessage;
+        ClassEntry e; e.name = "Message"; e.cxx = "QXmppMessage"; e.wrapNs = "jabber:client"; e.hasRest = true;
+        e.fieldNames = { "lang", "id", "to", "from", "type", "error", "private", "noPermanentStore", "noStore", "noCopy", "store", "stanzaIds", "originId",
+                         "subject", "body", "thread", "outOfBandUrls", "state", "receiptRequested", "attention", "mucInvitation", "replaceId", "markable",
+                         "attachId", "spoiler", "mixInvitation", "trustMessage", "reply", "addresses", "extensions" };
+        auto vBytes2 = [](const QByteArray &b) { return vS(QString::fromLatin1(b.constData(), b.size())); };
+        auto keyList2 = [vBytes2](const QList<QByteArray> &l) { Vals items; for (auto &b : l) items.push_back(vR({ vBytes2(b) })); return vL(items); };
+        auto keyListOf2 = [](const Val &l) { QList<QByteArray> o; for (auto &it : l.items) o.append(it.items.at(0).s.toLatin1()); return o; };
+        auto flag = [](bool b) { return b ? vR({}) : vA(); };
+        auto tv = [=](const M &o) {
+            // parts of the class the schema does not describe
+            if (!o.mixUserJid().isEmpty() || !o.mixUserNick().isEmpty() || !o.encryptionMethodNs().isEmpty() || !o.xhtml().isEmpty() || o.stamp().isValid()
+                || !o.receiptId().isEmpty() || !o.bitsOfBinaryData().isEmpty() || o.marker() != M::NoMarker || o.jingleMessageInitiationElement()
+                || o.reaction() || !o.sharedFiles().isEmpty() || !o.fileSourcesAttachments().isEmpty() || o.callInviteElement() || !o.fallbackMarkers().isEmpty()
+                || !o.e2eeFallbackBody().isEmpty())
+                g_outsideModel = true;
+            Vals sids; for (auto &s : o.stanzaIds()) sids.push_back(vR({ vS(s.id), vS(s.by) }));
+            Vals oobs; for (auto &u : o.outOfBandUrls()) oobs.push_back(vR({ vR({ vS(u.url()) }), u.description() ? vR({ vS(*u.description()) }) : vA() }));
+            int st = int(o.state());
+            Val mixInv = vA();
+            if (auto mi = o.mixInvitation()) mixInv = vR({ vR({ vS(mi->inviterJid()) }), vR({ vS(mi->inviteeJid()) }), vR({ vS(mi->channelJid()) }), vR({ vS(mi->token()) }) });
+            Val trust = vA();
+            if (auto tm = o.trustMessageElement()) {
+                Vals owners;
+                for (auto &k : tm->keyOwners()) owners.push_back(vR({ vS(k.jid()), keyList2(k.trustedKeys()), keyList2(k.distrustedKeys()) }));
+                trust = vR({ vS(tm->usage()), vS(tm->encryption()), vL(owners) });
+            }
+            Val reply = vA();
+            if (auto r = o.reply()) reply = vR({ vS(r->to), vS(r->id) });
+            return Vals { vS(o.lang()), vS(o.id()), vS(o.to()), vS(o.from()), vN(quint64(int(o.type()))), stanzaErrorVal(o.error()),
+                          flag(o.isPrivate()), flag(o.hasHint(M::NoPermanentStore)), flag(o.hasHint(M::NoStore)), flag(o.hasHint(M::NoCopy)), flag(o.hasHint(M::Store)),
+                          vL(sids), o.originId().isNull() ? vA() : vR({ vS(o.originId()) }),
+                          vR({ vS(o.subject()) }), vR({ vS(o.body()) }),
+                          o.thread().isEmpty() ? vR({ vS(QString()), vS(QString()) }) : vR({ vS(o.parentThread()), vS(o.thread()) }),
+                          vL(oobs), vR({ (st <= 0 || st > 5) ? vO(false) : vO(true, quint64(st - 1)), vS(QString()) }),
+                          flag(o.isReceiptRequested()), flag(o.isAttentionRequested()),
+                          o.mucInvitationJid().isEmpty() ? vR({ vS(QString()), vS(QString()), vS(QString()) })
+                                                         : vR({ vS(o.mucInvitationJid()), vS(o.mucInvitationPassword()), vS(o.mucInvitationReason()) }),
+                          vR({ vS(o.replaceId()) }), flag(o.isMarkable()), vR({ vS(o.attachId()) }),
+                          o.isSpoiler() ? vR({ vS(o.spoilerHint()) }) : vA(), mixInv, trust, reply,
+                          addressesVal(o.extendedAddresses()), vL(restVals(o.extensions())) };
+        };
+        e.run = [=](const QDomElement &el, QByteArray &out, Vals &vals) {
+            M o; o.parse(el); out = ser(o); vals = tv(o);
+            if (el.namespaceURI() != u"jabber:client" || stanzaHazard(el)) g_outsideModel = true;
+            static const char *UNMODELLED[][2] = { { "mix", "urn:xmpp:mix:core:1" }, { "encryption", "urn:xmpp:eme:0" }, { "html", "http://jabber.org/protocol/xhtml-im" },
+                { "delay", "urn:xmpp:delay" }, { "x", "jabber:x:delay" }, { "received", "urn:xmpp:receipts" }, { "data", "urn:xmpp:bob" }, { "", "urn:xmpp:jingle-message:0" },
+                { "reactions", "urn:xmpp:reactions:0" }, { "", "urn:xmpp:sfs:0" }, { "", "urn:xmpp:call-invites:0" }, { "fallback", "urn:xmpp:fallback:0" }, { "", "urn:xmpp:omemo:2" } };
+            for (auto c = el.firstChildElement(); !c.isNull(); c = c.nextSiblingElement()) {
+                for (auto &u : UNMODELLED) if (c.namespaceURI() == QLatin1String(u[1]) && (!*u[0] || c.tagName() == QLatin1String(u[0]))) g_outsideModel = true;
+                if (c.namespaceURI() == u"urn:xmpp:chat-markers:0" && c.tagName() != u"markable") g_outsideModel = true;
+                // a QString that is null without the attribute and empty with id="": only the latter is written back
+                if (c.tagName() == u"origin-id" && c.namespaceURI() == u"urn:xmpp:sid:0" && !c.hasAttribute("id")) g_outsideModel = true;
+            }
+            return true;
+        };
+        e.build = [=](const Vals &v, Vals &rep) {
+            M o; o.setLang(v.at(0).s); o.setId(v.at(1).s); o.setTo(v.at(2).s); o.setFrom(v.at(3).s); o.setType(M::Type(int(v.at(4).n)));
+            o.setError(stanzaErrorOf(v.at(5)));
+            o.setPrivate(v.at(6).kind == 'R');
+            if (v.at(7).kind == 'R') o.addHint(M::NoPermanentStore); if (v.at(8).kind == 'R') o.addHint(M::NoStore);
+            if (v.at(9).kind == 'R') o.addHint(M::NoCopy); if (v.at(10).kind == 'R') o.addHint(M::Store);
+            { QVector<QXmppStanzaId> l; for (auto &it : v.at(11).items) l.push_back(QXmppStanzaId { it.items.at(0).s, it.items.at(1).s }); o.setStanzaIds(l); }
+            if (v.at(12).kind == 'R') { QString s = v.at(12).items.at(0).s; o.setOriginId(s.isNull() ? QString("") : s); }
+            o.setSubject(v.at(13).items.at(0).s); o.setBody(v.at(14).items.at(0).s);
+            o.setParentThread(v.at(15).items.at(0).s); o.setThread(v.at(15).items.at(1).s);
+            { QVector<QXmppOutOfBandUrl> l; for (auto &it : v.at(16).items) { QXmppOutOfBandUrl u; u.setUrl(it.items.at(0).items.at(0).s); if (it.items.at(1).kind == 'R') u.setDescription(it.items.at(1).items.at(0).s); l.push_back(u); } o.setOutOfBandUrls(l); }
+            { const Val &st = v.at(17).items.at(0); o.setState(M::State(st.has ? int(st.n) + 1 : 0)); }
+            o.setReceiptRequested(v.at(18).kind == 'R'); o.setAttentionRequested(v.at(19).kind == 'R');
+            { auto &mi = v.at(20).items; o.setMucInvitationJid(mi.at(0).s); o.setMucInvitationPassword(mi.at(1).s); o.setMucInvitationReason(mi.at(2).s); }
+            o.setReplaceId(v.at(21).items.at(0).s); o.setMarkable(v.at(22).kind == 'R'); o.setAttachId(v.at(23).items.at(0).s);
+            if (v.at(24).kind == 'R') { o.setIsSpoiler(true); o.setSpoilerHint(v.at(24).items.at(0).s); }
+            if (v.at(25).kind == 'R') { auto &f = v.at(25).items; QXmppMixInvitation mi; mi.setInviterJid(f.at(0).items.at(0).s); mi.setInviteeJid(f.at(1).items.at(0).s); mi.setChannelJid(f.at(2).items.at(0).s); mi.setToken(f.at(3).items.at(0).s); o.setMixInvitation(mi); }
+            if (v.at(26).kind == 'R') {
+                auto &f = v.at(26).items; QXmppTrustMessageElement tm; tm.setUsage(f.at(0).s); tm.setEncryption(f.at(1).s);
+                for (auto &it : f.at(2).items) { QXmppTrustMessageKeyOwner k; k.setJid(it.items.at(0).s); k.setTrustedKeys(keyListOf2(it.items.at(1))); k.setDistrustedKeys(keyListOf2(it.items.at(2))); tm.addKeyOwner(k); }
+                o.setTrustMessageElement(tm);
+            }
+            if (v.at(27).kind == 'R') o.setReply(QXmpp::Reply { v.at(27).items.at(0).s, v.at(27).items.at(1).s });
+            o.setExtendedAddresses(addressesOf(v.at(28)));
+            QXmppElementList l; for (auto &t : v.at(29).items) l << elementOf(t, "jabber:client"); o.setExtensions(l);
+            rep = tv(o); return ser(o);
+        };
+        t.push_back(e);
+    }
+    {
+        // QXmppJingleRtpEncryption inside a holder <x>: parse() gets the <encryption/> child, toXml() writes it only with a valid <crypto/>
+        using Enc = QXmppJingleRtpEncryption;
+        ClassEntry e; e.name = "JingleRtpEncryption"; e.cxx = "QXmppJingleRtpEncryption"; e.fieldNames = { "encryption" };
+        auto heldX = [](const Enc &o) { QByteArray out; QBuffer buf(&out); buf.open(QIODevice::WriteOnly); QXmlStreamWriter w(&buf); w.writeStartElement("x"); o.toXml(&w); w.writeEndElement(); return out; };
+        auto tv = [](const Enc &o) {
+            Vals cs; for (auto &c : o.cryptoElements()) cs.push_back(vR({ vN(c.tag()), vS(c.cryptoSuite()), vS(c.keyParams()), vS(c.sessionParams()) }));
+            // without a crypto element nothing is written ("no encryption"): `required` alone is reported unset
+            if (cs.empty()) { if (o.isRequired()) stat("jingle_encryption_required_without_crypto"); return Vals { vR({ vB(false), vL({}) }) }; }
+            return Vals { vR({ vB(o.isRequired()), vL(cs) }) };
+        };
+        e.run = [=](const QDomElement &el, QByteArray &out, Vals &vals) {
+            Enc o; auto ee = firstChildElement(el, u"encryption", u"urn:xmpp:jingle:apps:rtp:1");
+            if (!ee.isNull()) o.parse(ee);
+            out = heldX(o); vals = tv(o); return true;
+        };
+        e.build = [=](const Vals &v, Vals &rep) {
+            Enc o; auto &f = v.at(0).items; o.setRequired(f.at(0).b);
+            QVector<QXmppJingleRtpCryptoElement> cs;
+            for (auto &it : f.at(1).items) { QXmppJingleRtpCryptoElement c; c.setTag(quint32(it.items.at(0).n)); c.setCryptoSuite(it.items.at(1).s); c.setKeyParams(it.items.at(2).s); c.setSessionParams(it.items.at(3).s); cs.push_back(c); }
+            o.setCryptoElements(cs);
+            rep = tv(o); return heldX(o);
+        };
+        t.push_back(e);
+    }
     return t;
 }
 
@@ -1147,6 +1456,20 @@ static bool mutate(Tree &root, int kind, Rng &rng)
     return false;
 }
 
+// Documents on which QXmppElement (the passthrough of unknown children) is outside its model `normE`: an `xmlns=""` that
+// un-declares the parent's namespace is DROPPED by today's code (recorded findings …:input-has-xmlns-undeclaration; repaired by
+// fixes/C02-qxmppelement-keeps-xmlns-undeclaration.diff), prefixed element names lose their prefix (tagName() is the local name)
+// and `xmlns:p` declarations are not attributes under namespace processing.
+static bool restHazard(const QByteArray &xml)
+{
+    if (xml.contains("xmlns=\"\"") || xml.contains("xmlns:")) return true;
+    for (int i = 0; (i = xml.indexOf('<', i)) >= 0; i++) {
+        int j = i + 1; if (j < xml.size() && xml[j] == '/') j++;
+        while (j < xml.size() && xml[j] != ' ' && xml[j] != '>' && xml[j] != '/') { if (xml[j] == ':') return true; j++; }
+    }
+    return false;
+}
+
 // `--mode c01` / `--mode c02`: report only that property's oracle failures (the findings file is per property);
 // without --mode both are reported
 static std::string g_mode;
@@ -1171,10 +1494,11 @@ static bool processDoc(const ClassEntry &c, const QByteArray &xml, const std::st
     }
     printf("I %s %s %s\n", c.name.c_str(), what.c_str(), xml.left(160).toHex().constData()); fflush(stdout);
     bool wf = false;
-    g_outsideModel = false;
+    g_outsideModel = false; g_failHint.clear();
     r.accepted = runReal(c, xml, r.out, r.vals, wf);
+    const std::string failHint = g_failHint;
     if (!wf) { stat("documents_not_wellformed"); return false; }
-    const bool outside = g_outsideModel;
+    const bool outside = g_outsideModel || (c.hasRest && restHazard(xml));
     if (outside) stat("documents_outside_model_oracle_only");
     stat("documents"); stat("documents:" + c.name);
     if (!r.accepted) {
@@ -1192,7 +1516,15 @@ static bool processDoc(const ClassEntry &c, const QByteArray &xml, const std::st
     QByteArray out2; Vals vals2; bool wf2 = false;
     bool acc2 = runReal(c, r.out, out2, vals2, wf2);
     if (!wf2) fail("C02:output-not-wellformed:" + c.name, xml.toHex().toStdString());
-    else if (!acc2 || canonWriter(out2) != r.cout) fail("C02:not-fixpoint:" + c.name, xml.toHex().toStdString());
+    // (classes that keep unknown children write them with the declarations QXmppElement chose; a declaration that became redundant because the
+    //  stanza itself moved into the stream's namespace is not a different document: compared with namespaces resolved)
+    else if (c.hasRest && acc2 && canonWriterResolved(out2, QString::fromLatin1(c.wrapNs)) == canonWriterResolved(r.out, QString::fromLatin1(c.wrapNs))) oraclePass()++;
+    else if (!acc2 || canonWriter(out2) != r.cout) {
+        // for the classes that keep unknown children, an input with xmlns="" fails for the recorded cause (QXmppElement drops the
+        // un-declaration): reported under the key the finding is recorded with
+        if (c.hasRest && xml.contains("xmlns=\"\"")) fail("C02:not-fixpoint:" + (c.cxx.empty() ? c.name : c.cxx) + ":input-has-xmlns-undeclaration", xml.toHex().toStdString());
+        else fail("C02:not-fixpoint:" + c.name + failHint, xml.toHex().toStdString());
+    }
     else oraclePass()++;
     return true;
 }
@@ -1258,6 +1590,10 @@ int main(int argc, char **argv)
             { "MamQueryIq", "<query xmlns=\"urn:xmpp:mam:2\" queryId=\"q1\"/>" },
             // expiry in UTC year 10000: valid, was written as expiry="" and dropped by the second pass before /repo 339fb3c
             { "PubSubSubscriptionEvent", "<subscription jid=\"a@b\" expiry=\"9999-12-31T23:59:59-01:00\"/>" },
+            // an invalid <crypto/> was kept, <encryption/> written empty and nothing on the next pass (before /repo 74a3584)
+            { "JingleRtpEncryption", "<x><encryption xmlns=\"urn:xmpp:jingle:apps:rtp:1\"><crypto/></encryption></x>" },
+            // XEP-0319 idle time in UTC year 10000: valid, written as <idle/> without `since`, dropped by the second pass (recorded finding)
+            { "Presence", "<presence><idle xmlns=\"urn:xmpp:idle:1\" since=\"9999-12-31T23:59:59-01:00\"/></presence>" },
         };
         for (auto &row : CORPUS)
             for (auto &c : table)
@@ -1272,6 +1608,14 @@ int main(int argc, char **argv)
         if (doc.setContent(out, true)) { auto ee = firstChildElement(doc.documentElement(), u"error"); if (!ee.isNull()) back.parse(ee); }
         if (back.text() != e.text() || back.by() != e.by()) fail("C01:field-mismatch:StanzaError:fields-without-type-and-condition", "by=a@b text=x -> " + out.toStdString());
         else oraclePass()++;
+    }
+    {
+        // QXmppIq reads xml:lang (QXmppStanza::parse) but toXml never writes it: the schema has no such field (it is unobservable in the XML)
+        QXmppIq iq; iq.setId(QStringLiteral("i1")); iq.setLang(QStringLiteral("de"));
+        QByteArray out = ser(iq);
+        QDomDocument doc; QXmppIq back;
+        if (doc.setContent(QByteArray("<w xmlns=\"jabber:client\">") + out + "</w>", true)) back.parse(doc.documentElement().firstChildElement());
+        if (back.lang() != iq.lang()) fail("C01:field-mismatch:Iq:lang", "lang=de -> " + out.toStdString()); else oraclePass()++;
     }
     // (0c) RUNTIME oracle (no Lean model: doubles are opaque tokens for tier C): QXmppGeolocItem keeps what it is given
     {
